@@ -290,6 +290,7 @@ func main() {
 			cfg.Params[k] = v
 		}
 		cfg.UnwindOK = h.opt(*tier, "unwind_ok", "") == "1"
+		cfg.HangIsViolation = h.opt(*tier, "hang_is_violation", "") == "1"
 		if sk := h.opt(*tier, "sigkeys", ""); sk != "" {
 			cfg.SigLabels = strings.Split(sk, ",")
 		}
@@ -313,7 +314,7 @@ func main() {
 		rep.Violations = len(ex.Violations)
 		for k, n := range ex.Stats.Aborts {
 			switch k {
-			case "assume", "assert-failed", "subsumed", "panic", "deadlock":
+			case "assume", "assert-failed", "subsumed", "panic", "deadlock", "hang":
 			case "unwind", "lencap":
 				if !cfg.UnwindOK {
 					rep.Reduced = append(rep.Reduced, fmt.Sprintf("%s x%d (%s)", k, n, ex.Stats.AbortSamples[k]))
